@@ -127,6 +127,12 @@ impl Stage<'_> {
             }
         }
     }
+
+    /// Number of systems in each group of this stage (verification hook, read-only).
+    #[cfg(feature = "verif-hooks")]
+    pub fn verif_group_sizes(&self) -> Vec<usize> {
+        self.groups.iter().map(|g| g.len()).collect()
+    }
 }
 
 #[derive(Default)]
